@@ -51,8 +51,17 @@ impl Listener {
         Ok(Listener { l, addr })
     }
     pub fn accept(&self, deadline: Duration) -> io::Result<TcpStream> {
+        self.accept_until(deadline, None)
+    }
+    /// `accept` that also gives up when `stop` is raised.
+    pub fn accept_until(&self, deadline: Duration, stop: Option<&AtomicBool>) -> io::Result<TcpStream> {
         let t0 = Instant::now();
         loop {
+            if let Some(s) = stop {
+                if s.load(Ordering::Relaxed) {
+                    return Err(io::Error::new(io::ErrorKind::TimedOut, "accept stopped"));
+                }
+            }
             match self.l.accept() {
                 Ok((s, _)) => {
                     s.set_nonblocking(false)?;
@@ -177,7 +186,15 @@ impl Framer {
     }
 }
 
-fn pump(mut from: TcpStream, mut to: TcpStream, dir: usize, log: Arc<Mutex<ProxyLog>>, stop: Arc<AtomicBool>, deadline: Instant) {
+fn pump(
+    mut from: TcpStream,
+    mut to: TcpStream,
+    dir: usize,
+    log: Arc<Mutex<ProxyLog>>,
+    stop: Arc<AtomicBool>,
+    deadline: Instant,
+    ended: Arc<[AtomicBool; 2]>,
+) {
     let mut fr = Framer { from_requestor: dir == 0, hdr: Vec::new(), left: 0, keep: false, cur: None };
     let mut buf = vec![0u8; 65536];
     let _ = from.set_read_timeout(Some(Duration::from_millis(50)));
@@ -201,8 +218,20 @@ fn pump(mut from: TcpStream, mut to: TcpStream, dir: usize, log: Arc<Mutex<Proxy
         }
     }
     log.lock().unwrap().partial_tail[dir] = fr.pending_bytes();
-    let _ = to.shutdown(std::net::Shutdown::Write);
-    rst_on_close(&from);
+    // Propagate the end of stream only if the other side does not close by itself shortly: when
+    // both peers close on their own (the normal end of an association) the proxy sends no FIN at
+    // all, and since both proxy sockets close with RST nobody is left in TIME_WAIT.
+    ended[dir].store(true, Ordering::SeqCst);
+    let other = 1 - dir;
+    if !ended[other].load(Ordering::SeqCst) {
+        let t0 = Instant::now();
+        while t0.elapsed() < Duration::from_millis(25) && !ended[other].load(Ordering::SeqCst) {
+            std::thread::sleep(Duration::from_millis(1));
+        }
+        if !ended[other].load(Ordering::SeqCst) {
+            let _ = to.shutdown(std::net::Shutdown::Write);
+        }
+    }
 }
 
 impl Proxy {
@@ -216,7 +245,7 @@ impl Proxy {
         let (log2, stop2) = (log.clone(), stop.clone());
         let handle = std::thread::spawn(move || {
             let deadline = Instant::now() + life;
-            let down = match lst.accept(life) {
+            let down = match lst.accept_until(life, Some(&stop2)) {
                 Ok(s) => s,
                 Err(e) => {
                     log2.lock().unwrap().errors.push(format!("proxy accept: {}", e.kind()));
@@ -237,9 +266,12 @@ impl Proxy {
                     return;
                 }
             };
-            let (l3, s3) = (log2.clone(), stop2.clone());
-            let t = std::thread::spawn(move || pump(u2, d2, 1, l3, s3, deadline));
-            pump(down, up, 0, log2, stop2, deadline);
+            rst_on_close(&down);
+            rst_on_close(&up);
+            let ended = Arc::new([AtomicBool::new(false), AtomicBool::new(false)]);
+            let (l3, s3, e3) = (log2.clone(), stop2.clone(), ended.clone());
+            let t = std::thread::spawn(move || pump(u2, d2, 1, l3, s3, deadline, e3));
+            pump(down, up, 0, log2, stop2, deadline, ended);
             let _ = t.join();
         });
         Ok(Proxy { addr, log, stop, handle: Some(handle) })
